@@ -290,7 +290,9 @@ fn ask(elf: &Elf) -> Result<Answers, String> {
 impl C19 {
     fn single(&mut self, ctx: &mut Ctx, rng: &mut Rng) {
         let (g, arch) = gen_single(rng);
-        let built = elfgen::build_with(&g.spec, &BuildOpts { page_congruent: g.page_congruent });
+        // one file in four gives its PT_LOADs a physical address different from the virtual one (firmware, kernels)
+        let paddr_delta = if rng.chance(1, 4) { *rng.pick(&[0x1000u64, 0x10_0000, 0u64.wrapping_sub(0x1000), 0x4000_0000]) } else { 0 };
+        let built = elfgen::build_with(&g.spec, &BuildOpts { page_congruent: g.page_congruent, paddr_delta });
         let base = match rng.below(5) {
             0 => 0x1000,
             1 => 0x4000_0000,
@@ -488,6 +490,21 @@ impl C19 {
             };
             objs.push(Obj { file, spec, built: None, sym_words: vec![], rel_words: vec![] });
         }
+        // interposition: in half of the non-MIPS cases the main program and one library both define a function of the
+        // same name; every reference to it from any object binds to the main program's definition (the main program
+        // comes first in the lookup order however the libraries are ordered)
+        let dup_name = format!("dup_{}", case_id);
+        let mut dup_lib: Option<usize> = None;
+        if !mips && rng.bool() {
+            let k = 1 + rng.usize(nlibs);
+            for o in [0usize, k] {
+                let code = objs[o].spec.segments[0].clone();
+                let value = code.vaddr + rng.below(code.memsz);
+                objs[o].spec.dynsyms.push(SymSpec { name: dup_name.clone(), value: value.max(1), size: 4, stype: STT_FUNC, bind: 1, defined: true, abs: false });
+            }
+            dup_lib = Some(k);
+            ctx.count("link_cases_with_an_interposed_symbol");
+        }
         // dependency graph: main needs a non-empty subset; a lib may need later libs; every lib reachable from main
         let mut needs: Vec<Vec<usize>> = vec![Vec::new(); nlibs + 1];
         for k in 1..=nlibs {
@@ -612,13 +629,27 @@ impl C19 {
                         }
                         kind => {
                             let p = providers[rng.usize(providers.len())];
+                            let mut p = p;
                             let (idx, name, value) = if p == k {
                                 let i = rng.usize(own);
+                                if objs[k].spec.dynsyms[i].name == dup_name && k != 0 {
+                                    // a library's reference to the name it defines itself too: not generated
+                                    continue;
+                                }
                                 (i as u32 + 1, objs[k].spec.dynsyms[i].name.clone(), objs[k].spec.dynsyms[i].value)
                             } else {
-                                let s = objs[p].spec.dynsyms[rng.usize(objs[p].spec.dynsyms.iter().filter(|s| s.defined).count())].clone();
+                                let mut s = objs[p].spec.dynsyms[rng.usize(objs[p].spec.dynsyms.iter().filter(|s| s.defined).count())].clone();
                                 if !s.defined {
                                     continue;
+                                }
+                                if s.name == dup_name {
+                                    if Some(k) == dup_lib {
+                                        continue;
+                                    }
+                                    // whoever was asked, the main program's definition is the one found first
+                                    p = 0;
+                                    s = objs[0].spec.dynsyms.iter().find(|d| d.name == dup_name).unwrap().clone();
+                                    ctx.count("link_references_to_an_interposed_symbol");
                                 }
                                 let pos = match objs[k].spec.dynsyms.iter().position(|d| d.name == s.name) {
                                     Some(pos) => pos,
@@ -791,6 +822,9 @@ impl C19 {
         let syms: BTreeSet<(String, u64)> = linker.symbols().iter().map(|s| (s.name().to_string(), s.address())).collect();
         for (k, o) in objs.iter().enumerate() {
             for s in &o.spec.dynsyms {
+                if s.name == dup_name && k != 0 {
+                    continue;
+                }
                 if s.defined && s.value != 0 && !syms.contains(&(s.name.clone(), bases[k] + s.value)) {
                     ctx.violation(&format!("{}:link:symbol_missing_or_misplaced", arch), json!({"objects": describe(&objs), "symbol": s.name, "expected": format!("0x{:x}", bases[k] + s.value)}));
                     return;
